@@ -45,6 +45,9 @@ def gate_sets(ctx, cfg, path, with_question=False):
                 continue
             if g.kind == 'call' and (g.what or '').endswith(NOT_CONDITIONS):
                 continue
+            if g.kind == 'cmp' and (any(str(c) == str(2 ** 64 - 1) for c in g.const_ops)
+                                    or any(a[0] == 'c' and str(a[1]) == str(2 ** 64 - 1) for a in g.all_atoms())):
+                continue      # `x == usize::MAX` before `x + 1`: the same upward-overflow refusal, written as a comparison
             rs = set()
             for a in g.all_atoms():
                 st = strip(a)
